@@ -329,7 +329,8 @@ v2::track_row gen_row(uint64_t seed, int size, uint64_t uniq, bool hostile_blobs
         double v = gen_any_double(r, false);
         w.bpm_analyzed = (v == 0) ? 0.0 : v;
     }
-    w.album_art_id = r.chance(1, 2) ? 1 : 6000 + (int64_t)r.below(1000);
+    (void)r.chance(1, 2);
+    w.album_art_id = 1;  // the default AlbumArt row: any other value would be a dangling reference supplied by the caller
     w.file_bytes = gen_col_int(r, 7);
     w.title = gen_col_string(r, "title", uniq);
     w.artist = gen_col_string(r, "artist", uniq);
@@ -593,6 +594,42 @@ void World::table_check(const std::string& op, int64_t touched)
             report("C09", std::string("C09|") + op + "|v2|" + (a == b ? "entity-order" : "entity-lost-or-duplicated"),
                    "entities of list " + std::to_string(kv.first) + " = [" + ids_str(tids) + "], expected [" + ids_str(T.ents[kv.first]) + "]");
         }
+        else
+        {
+            // entity rows read back as written (C18): id, list, track, uuid, membership reference; next = successor
+            auto& seq = T.ents[kv.first];
+            for (size_t i = 0; i < seq.size(); ++i)
+            {
+                auto er = T.entrow.find({kv.first, seq[i]});
+                if (er == T.entrow.end())
+                    continue;
+                std::optional<v2::playlist_entity_row> got;
+                Outcome ge = call(FaultSpec{}, [&] { got = et.get(kv.first, seq[i]); });
+                if (ge.threw || !got)
+                {
+                    report("C18", "C18|" + op + "|" + F + "|entity-missing", "playlist_entity_table::get(list, track) finds no row for a listed entry");
+                    continue;
+                }
+                int64_t exp_next = 0;
+                if (i + 1 < seq.size())
+                {
+                    auto nx = T.entrow.find({kv.first, seq[i + 1]});
+                    exp_next = nx != T.entrow.end() ? nx->second.id : -1;
+                }
+                if (got->id != er->second.id)
+                    report("C18", "C18|" + op + "|" + F + "|entity-column:id", "entity id differs from the one add_back returned");
+                if (got->list_id != kv.first || got->track_id != seq[i])
+                    report("C18", "C18|" + op + "|" + F + "|entity-column:key", "entity list/track id differs");
+                if (got->database_uuid != T.uuid)
+                    report("C18", "C18|" + op + "|" + F + "|entity-column:database_uuid", "entity database uuid differs from the value written");
+                if (got->membership_reference != er->second.mref)
+                    report("C18", "C18|" + op + "|" + F + "|entity-column:membership_reference",
+                           "entity membership_reference reads " + std::to_string(got->membership_reference) + ", written " + std::to_string(er->second.mref));
+                if (exp_next >= 0 && got->next_entity_id != exp_next)
+                    report("C18", "C18|" + op + "|" + F + "|entity-column:next_entity_id",
+                           "entity next_entity_id = " + std::to_string(got->next_entity_id) + ", expected " + std::to_string(exp_next));
+            }
+        }
     }
 }
 
@@ -648,6 +685,7 @@ void World::table_sync_from_db()
     T.lists.clear();
     T.order.clear();
     T.ents.clear();
+    T.entrow.clear();
     Outcome o = call(FaultSpec{}, [&] {
         for (auto id : tt.all_ids())
             if (auto r = tt.get(id))
@@ -662,6 +700,8 @@ void World::table_sync_from_db()
             auto kids = pt.child_ids(kv.first);
             T.order[kv.first].assign(kids.begin(), kids.end());
             T.ents[kv.first] = et.track_ids(kv.first);
+            for (auto& row : et.get_for_list(kv.first))
+                T.entrow[{kv.first, row.track_id}] = {row.id, row.membership_reference};
         }
     });
     if (o.threw)
@@ -716,6 +756,8 @@ bool World::exec_table_op(const Step& s)
             }
             else
                 table_check(op, touched);
+            if (check(CK_AUDIT) && !o.fault_fired && !stop)
+                audit();  // raw chains, integrity, foreign keys, blobs after table-API writes too (C11)
             return;
         }
         StepEffect e;
@@ -791,7 +833,10 @@ bool World::exec_table_op(const Step& s)
         {
             T.rows.erase(id);
             for (auto& kv : T.ents)
+            {
                 kv.second.erase(std::remove(kv.second.begin(), kv.second.end(), id), kv.second.end());
+                T.entrow.erase({kv.first, id});
+            }
         }
         finish("t_remove", o, 0);
         return true;
@@ -985,6 +1030,8 @@ bool World::exec_table_op(const Step& s)
             }
             for (auto g : gone)
             {
+                for (auto t : T.ents[g])
+                    T.entrow.erase({g, t});
                 T.lists.erase(g);
                 T.order.erase(g);
                 T.ents.erase(g);
@@ -1004,7 +1051,11 @@ bool World::exec_table_op(const Step& s)
         {
             Outcome o = call(s.fault, [&] { et.clear(l); });
             if (!o.threw)
+            {
+                for (auto t : mem)
+                    T.entrow.erase({l, t});
                 mem.clear();
+            }
             note("e_clear " + std::to_string(l));
             finish("e_clear", o, 0);
             return true;
@@ -1015,11 +1066,23 @@ bool World::exec_table_op(const Step& s)
         Outcome o;
         if (s.op == "e_add")
         {
-            v2::playlist_entity_row row{v2::PLAYLIST_ENTITY_ROW_ID_NONE, l, t, T.uuid, 0, 0};
-            o = call(s.fault, [&] { et.add_back(row); });
+            int64_t mref = (arg(2) % 3 == 0) ? 0 : 70000 + (int64_t)r.below(1000);
+            v2::playlist_entity_row row{v2::PLAYLIST_ENTITY_ROW_ID_NONE, l, t, T.uuid, (arg(2) & 4) ? 12345 : 0, mref};
+            int64_t eid = 0;
+            o = call(s.fault, [&] { eid = et.add_back(row); });
             note("e_add list " + std::to_string(l) + " track " + std::to_string(t) + (o.threw ? " -> threw " + o.exc : " -> ok"));
             if (!o.threw && std::find(mem.begin(), mem.end(), t) == mem.end())
+            {
                 mem.push_back(t);
+                T.entrow[{l, t}] = {eid, mref};
+            }
+            else if (!o.threw && !atomic)
+            {
+                // already present: the existing entity's id is returned and nothing changes
+                auto it = T.entrow.find({l, t});
+                if (it != T.entrow.end() && it->second.id != eid)
+                    report("C18", "C18|e_add|" + F + "|duplicate-id", "add_back of an existing entry returned another id");
+            }
             probes.hit("e_add_ok");
         }
         else
@@ -1027,7 +1090,10 @@ bool World::exec_table_op(const Step& s)
             o = call(s.fault, [&] { et.remove(l, t); });
             note("e_remove list " + std::to_string(l) + " track " + std::to_string(t) + (o.threw ? " -> threw " + o.exc : " -> ok"));
             if (!o.threw)
+            {
                 mem.erase(std::remove(mem.begin(), mem.end(), t), mem.end());
+                T.entrow.erase({l, t});
+            }
         }
         finish(s.op, o, 0);
         return true;
